@@ -82,6 +82,38 @@ impl Trace {
         if !rng.chance(1, 8) || self.stream.insts.is_empty() {
             return self;
         }
+        if rng.chance(1, 4) {
+            // an OpLine / OpNoLine inside a function but outside any block (where the data representation has no place
+            // for it), directly followed by a stray body instruction: the loader must reject that instruction
+            let anchors: Vec<usize> = self
+                .stream
+                .insts
+                .iter()
+                .enumerate()
+                .filter(|(k, i)| {
+                    let c = layout::class_of(i.opcode);
+                    let next_is_fn_end_or_label = self.stream.insts.get(k + 1).map(|n| matches!(layout::class_of(n.opcode), Lc::Label | Lc::FunctionEnd | Lc::Parameter)).unwrap_or(false);
+                    matches!(c, Lc::Function | Lc::Parameter) || (c == Lc::Terminator && next_is_fn_end_or_label)
+                })
+                .map(|(k, _)| k + 1)
+                .collect();
+            if !anchors.is_empty() {
+                let at = *rng.pick(&anchors);
+                let line = if rng.chance(2, 3) {
+                    MInst { opcode: s.op("Line"), rtype: None, rid: None, ops: vec![MOp::W(s.k_idref, 1), MOp::W(s.k_lit32, rng.below(50) as u32), MOp::W(s.k_lit32, rng.below(50) as u32)] }
+                } else {
+                    MInst { opcode: s.op("NoLine"), rtype: None, rid: None, ops: vec![] }
+                };
+                let body = match rng.below(3) {
+                    0 => MInst { opcode: s.op("Nop"), rtype: None, rid: None, ops: vec![] },
+                    1 => MInst { opcode: s.op("Store"), rtype: None, rid: None, ops: vec![MOp::W(s.k_idref, 1), MOp::W(s.k_idref, 2)] },
+                    _ => MInst { opcode: s.op("IAdd"), rtype: Some(1), rid: Some(self.stream.header.bound.wrapping_add(40)), ops: vec![MOp::W(s.k_idref, 1), MOp::W(s.k_idref, 2)] },
+                };
+                self.extra.push(Extra::Stray(at, line));
+                self.extra.push(Extra::Stray(at + 1, body));
+                return self;
+            }
+        }
         if rng.chance(1, 2) {
             // stray structural instruction, biased to module level (front / back) and bracket boundaries
             let op = *rng.pick(&["FunctionEnd", "FunctionEnd", "Label", "Return", "FunctionParameter", "Function", "Unreachable", "Nop", "IAdd"]);
@@ -262,6 +294,37 @@ impl Property for C01 {
                 stream.insts = merged;
                 reorders.push("fault.reorder_sections_permuted".to_string());
             }
+            // (4) a declaration (section 10, not an int/float type: literal widths stay put) moved INTO a block, half of
+            // the time right behind an OpLine placed there; it is hoisted on loading, the line stays in the block
+            if rng.chance(1, 3) {
+                let decls: Vec<usize> = stream
+                    .insts
+                    .iter()
+                    .enumerate()
+                    .filter(|(_, i)| layout::class_of(i.opcode) == Lc::Section(10) && !i.is("TypeInt") && !i.is("TypeFloat"))
+                    .map(|(k, _)| k)
+                    .collect();
+                if !decls.is_empty() {
+                    let from = *rng.pick(&decls);
+                    let x = stream.insts.remove(from);
+                    // positions inside blocks: behind a label or a block instruction, in front of something of the same block
+                    let inside: Vec<usize> = (1..stream.insts.len())
+                        .filter(|k| matches!(layout::class_of(stream.insts[*k - 1].opcode), Lc::Label | Lc::Block) && matches!(layout::class_of(stream.insts[*k].opcode), Lc::Block | Lc::Terminator))
+                        .collect();
+                    if inside.is_empty() {
+                        stream.insts.insert(from, x);
+                    } else {
+                        let to = *rng.pick(&inside);
+                        stream.insts.insert(to, x);
+                        if rng.chance(1, 2) {
+                            let s = snap();
+                            let line = MInst { opcode: s.op("Line"), rtype: None, rid: None, ops: vec![MOp::W(s.k_idref, 1), MOp::W(s.k_lit32, rng.below(100) as u32), MOp::W(s.k_lit32, rng.below(100) as u32)] };
+                            stream.insts.insert(to, line);
+                        }
+                        reorders.push("fault.reorder_declaration_into_block".to_string());
+                    }
+                }
+            }
             // (3) an OpFunctionParameter moved behind the blocks of its function
             if rng.chance(1, 2) {
                 let sels = selector_ids(&stream.insts);
@@ -424,6 +487,66 @@ impl Property for C01 {
             if let Some(k) = used.iter().position(|u| !u) {
                 let op = (asm[fo[k].0] & 0xffff) as u16;
                 return out(mk("conservation.invented", format!("op={} accepted-ungrammatical", s.inst(op).map(|g| g.name.clone()).unwrap_or_default()), 5, format!("output instruction {:x?} has no counterpart in the input", &asm[fo[k].0..fo[k].1])), h);
+            }
+            // relative order inside every section and function of the OUTPUT must be the input's (OpLine / OpNoLine
+            // are outside the guarantee when they sit outside blocks: they are left out of the comparison)
+            let opcode_of = |w: &[u32], f: &(usize, usize)| (w[f.0] & 0xffff) as u16;
+            let is_line = |op: u16| op == s.op("Line") || op == s.op("NoLine");
+            let mut groups: Vec<(String, Vec<usize>)> = vec![];
+            let mut in_fn = false;
+            for (k, f) in fo.iter().enumerate() {
+                let op = opcode_of(&asm, f);
+                if is_line(op) {
+                    continue;
+                }
+                let cls = layout::class_of(op);
+                if cls == Lc::Function {
+                    in_fn = true;
+                    groups.push((format!("function#{}", groups.iter().filter(|g| g.0.starts_with("function")).count()), vec![]));
+                }
+                if in_fn && cls == Lc::Parameter {
+                    // layout order groups a function's parameters in front of its blocks: their own order group
+                    let key = format!("parameters-of-{}", groups.iter().rev().find(|g| g.0.starts_with("function")).map(|g| g.0.clone()).unwrap_or_default());
+                    match groups.iter_mut().find(|g| g.0 == key) {
+                        Some(g) => g.1.push(k),
+                        None => groups.push((key, vec![k])),
+                    }
+                } else if in_fn {
+                    groups.iter_mut().rev().find(|g| g.0.starts_with("function")).unwrap().1.push(k);
+                    if cls == Lc::FunctionEnd {
+                        in_fn = false;
+                    }
+                } else {
+                    let key = match cls {
+                        Lc::Section(n) => format!("section{}", n),
+                        _ => "section10".to_string(),
+                    };
+                    match groups.iter_mut().find(|g| g.0 == key) {
+                        Some(g) => g.1.push(k),
+                        None => groups.push((key, vec![k])),
+                    }
+                }
+            }
+            for (name, members) in &groups {
+                let mut pos = 0usize;
+                for k in members {
+                    let (b0, b1) = fo[*k];
+                    let found = (pos..fi.len()).find(|j| {
+                        let (a0, a1) = fi[*j];
+                        a1 - a0 == b1 - b0 && (0..a1 - a0).all(|x| (words[a0 + x] ^ asm[b0 + x]) & mask_in[a0 + x] == 0)
+                    });
+                    match found {
+                        Some(j) => pos = j + 1,
+                        None => {
+                            let op = opcode_of(&asm, &fo[*k]);
+                            let opn = s.inst(op).map(|g| g.name.clone()).unwrap_or_default();
+                            return out(
+                                mk("order.accepted-ungrammatical", format!("op={} {}", opn, name.trim_end_matches(char::is_numeric)), 6, format!("the loader accepted the input although the reference rejects it; in the output's {} instruction Op{} {:x?} comes after instructions that follow it in the input", name, opn, &asm[b0..b1])),
+                                h,
+                            );
+                        }
+                    }
+                }
             }
             out(None, h)
         };
